@@ -183,6 +183,11 @@ def idAt (st : St) (h : Nat) : Nat :=
   | some q => q.id
   | none => 0
 
+/-- the F28 hypothesis: after freeing up id 0, the ids 1..n-1 the pairs will be moved to are
+unused -/
+def nvKeepOk (c : Cfg) (st : St) (n : Nat) : Bool :=
+  (List.range n).all (fun k => k == 0 || !(activeIds (freeUp c st).hs).contains k)
+
 /-- The operation is a host-program step inside the statement of C09 *and* outside the open
 findings: budget (`limit`), gates on live handles; no carbon–carbon gate under the NV transpiler
 while id 0 is free (F30); NV keep of one pair at a time (F28); no sequential keep (F29), no
@@ -195,7 +200,7 @@ def opOk (c : Cfg) (st : St) : Op → Bool
   | .meas h _ => decide (h < st.hs.length)
   | .free h => decide (h < st.hs.length)
   | .keep _ n => decide (1 ≤ n) && (decide (c.maxq < n) ||
-      (decide ((activeIds st.hs).length + n ≤ limit c) && (!c.nv || n == 1)))
+      (decide ((activeIds st.hs).length + n ≤ limit c) && (!c.nv || nvKeepOk c st n)))
   | .seq _ _ _ => false
   | .ctx _ _ _ _ => false
   | .flush => true
@@ -790,10 +795,148 @@ theorem inv_add_delivered {c : Cfg} {st : St} (hi : Inv c st) (hs' : List Handle
   · simp only [ea, List.length_append]; exact hc
   · intro w; simp only [ea]; rw [hm' w, hm w, List.mem_append]
 
+/-! ### NV keep of n pairs -/
+
+def descIds : Nat → List Nat
+  | 0 => []
+  | k + 1 => k :: descIds k
+
+def allocEvs : Nat → List Ev
+  | 0 => []
+  | k + 1 => if k = 0 then [] else [.alloc k, .use k] ++ allocEvs k
+
+theorem mem_descIds : ∀ (n w : Nat), w ∈ descIds n ↔ w < n := by
+  intro n
+  induction n with
+  | zero => intro w; simp [descIds]
+  | succ k ih => intro w; simp only [descIds, List.mem_cons, ih]; omega
+
+theorem nodup_descIds : ∀ (n : Nat), (descIds n).Nodup := by
+  intro n
+  induction n with
+  | zero => exact List.nodup_nil
+  | succ k ih =>
+    simp only [descIds, List.nodup_cons]
+    exact ⟨fun h => by have := (mem_descIds k k).mp h; omega, ih⟩
+
+theorem length_descIds : ∀ (n : Nat), (descIds n).length = n := by
+  intro n; induction n with
+  | zero => rfl
+  | succ k ih => simp [descIds, ih]
+
+theorem nvEnt_spec : ∀ (n : Nat) (st : St), (∀ k, 1 ≤ k → k < n → k ∉ activeIds st.hs) →
+    ∃ st', nvEnt st n = .ok (st', descIds n) ∧ activeIds st'.hs = activeIds st.hs ++ descIds n ∧
+      st'.evs = st.evs ++ allocEvs n ∧ st'.unit = st.unit := by
+  intro n
+  induction n with
+  | zero => intro st _; exact ⟨st, rfl, by simp [descIds], by simp [allocEvs], rfl⟩
+  | succ k ih =>
+    intro st h
+    by_cases hk : k = 0
+    · subst hk
+      refine ⟨{ st with hs := st.hs ++ [⟨0, true⟩] }, by simp [nvEnt, descIds], ?_, by simp [allocEvs], rfl⟩
+      simp only [activeIds_snoc, descIds]
+    · have hkm : k ∉ activeIds st.hs := h k (by omega) (by omega)
+      obtain ⟨st', e1, e2, e3, e4⟩ := ih ⟨st.hs ++ [⟨k, true⟩], st.evs ++ [.alloc k, .use k], some k, st.unit⟩ (by
+        intro j hj1 hj2
+        simp only [activeIds_snoc, List.mem_append, List.mem_singleton]
+        rintro (hm | hm)
+        · exact h j hj1 (by omega) hm
+        · omega)
+      refine ⟨st', ?_, ?_, ?_, e4⟩
+      · simp only [nvEnt, if_neg hk, if_neg hkm, e1, descIds]
+      · rw [e2]; simp only [activeIds_snoc, descIds, List.append_assoc, List.singleton_append]
+      · rw [e3]; simp only [allocEvs, if_neg hk, List.append_assoc]
+
+theorem run_allocEvs {m : Nat} : ∀ (n : Nat) (u : List Nat), (∀ k, 1 ≤ k → k < n → k ∉ u ∧ k < m) →
+    ∃ u', run m u (allocEvs n) = .ok u' ∧ ∀ w, w ∈ u' ↔ w ∈ u ∨ (1 ≤ w ∧ w < n) := by
+  intro n
+  induction n with
+  | zero => intro u _; exact ⟨u, rfl, fun w => by simp⟩
+  | succ k ih =>
+    intro u h
+    by_cases hk : k = 0
+    · subst hk
+      refine ⟨u, by simp [allocEvs, run], fun w => ⟨fun hw => Or.inl hw, fun hw => ?_⟩⟩
+      rcases hw with hw | hw
+      · exact hw
+      · omega
+    · obtain ⟨hku, hkm⟩ := h k (by omega) (by omega)
+      obtain ⟨u', hu', hm'⟩ := ih (k :: u) (by
+        intro j hj1 hj2
+        refine ⟨?_, (h j hj1 (by omega)).2⟩
+        intro hm
+        rcases List.mem_cons.mp hm with hm | hm
+        · omega
+        · exact (h j hj1 (by omega)).1 hm)
+      refine ⟨u', ?_, ?_⟩
+      · simp only [allocEvs, if_neg hk, List.cons_append, List.nil_append, run,
+          step_alloc hkm hku, step_use hkm List.mem_cons_self]
+        exact hu'
+      · intro w; rw [hm' w, List.mem_cons]
+        constructor
+        · rintro ((hw | hw) | hw)
+          · exact Or.inr (by omega)
+          · exact Or.inl hw
+          · exact Or.inr (by omega)
+        · rintro (hw | hw)
+          · exact Or.inl (Or.inr hw)
+          · by_cases hwk : w = k
+            · exact Or.inl (Or.inl hwk)
+            · exact Or.inr (by omega)
+
+theorem run_moveLoop {m n : Nat} : ∀ (k : Nat) (u : List Nat), 1 ≤ k → 0 ∉ u → 0 < m →
+    (∀ j, 1 ≤ j → j < k → j ∈ u ∧ j < m) →
+    ∃ u', run m u (moveLoop n k) = .ok u' ∧ ∀ w, w ∈ u' ↔ w = 0 ∨ w ∈ u := by
+  intro k
+  induction k with
+  | zero => intro u h; omega
+  | succ k ih =>
+    intro u _ h0 hm hj
+    by_cases hk : k = 0
+    · subst hk
+      exact ⟨0 :: u, by simp only [moveLoop, if_true, run, step_deliver hm h0], fun w => by simp⟩
+    · obtain ⟨hku, hkm⟩ := hj k (by omega) (by omega)
+      have hf : (0 : Nat) ∉ (0 :: u).filter (· != 0) := by simp
+      obtain ⟨u', hu', hm'⟩ := ih ((0 :: u).filter (· != 0)) (by omega) hf hm (by
+        intro j hj1 hj2
+        refine ⟨?_, (hj j hj1 (by omega)).2⟩
+        simp only [List.mem_filter, List.mem_cons, bne_iff_ne, ne_eq]
+        exact ⟨Or.inr (hj j hj1 (by omega)).1, by omega⟩)
+      refine ⟨u', ?_, ?_⟩
+      · simp only [moveLoop, if_neg hk, List.cons_append, List.nil_append, run, step_deliver hm h0,
+          step_use2 hm List.mem_cons_self hkm (List.mem_cons_of_mem _ hku),
+          step_free hm List.mem_cons_self]
+        exact hu'
+      · intro w; rw [hm' w]
+        simp only [List.mem_filter, List.mem_cons, bne_iff_ne, ne_eq, decide_not, Bool.not_eq_true',
+          decide_eq_false_iff_not]
+        constructor
+        · rintro (hw | ⟨hw | hw, _⟩)
+          · exact Or.inl hw
+          · exact Or.inl hw
+          · exact Or.inr hw
+        · rintro (hw | hw)
+          · exact Or.inl hw
+          · by_cases hw0 : w = 0
+            · exact Or.inl hw0
+            · exact Or.inr ⟨Or.inr hw, hw0⟩
+
+theorem nvKeepOk_spec {c : Cfg} {st : St} {n : Nat} (h : nvKeepOk c st n = true) :
+    ∀ k, 1 ≤ k → k < n → k ∉ activeIds (freeUp c st).hs := by
+  intro k hk1 hk2 hm
+  simp only [nvKeepOk, List.all_eq_true, List.mem_range] at h
+  have := h k hk2
+  simp only [Bool.or_eq_true, beq_iff_eq, Bool.not_eq_true', List.contains_eq_mem,
+    decide_eq_false_iff_not] at this
+  rcases this with h0 | h0
+  · omega
+  · exact h0 hm
+
 theorem lowestUnused_nil : lowestUnused [] = 0 := by decide
 
 theorem inv_keep {c : Cfg} {st : St} (hi : Inv c st) {r : Bool} {n : Nat} (h1 : 1 ≤ n)
-    (hk : c.maxq < n ∨ ((activeIds st.hs).length + n ≤ limit c ∧ (c.nv = false ∨ n = 1))) :
+    (hk : c.maxq < n ∨ ((activeIds st.hs).length + n ≤ limit c ∧ (c.nv = false ∨ nvKeepOk c st n = true))) :
     Inv c (apply c st (.keep r n)).1 ∧ (apply c st (.keep r n)).2.fatal = false := by
   simp only [apply]
   by_cases hmax : c.maxq < n
@@ -828,24 +971,60 @@ theorem inv_keep {c : Cfg} {st : St} (hi : Inv c st) {r : Bool} {n : Nat} (h1 : 
         show Inv c ⟨(genEnt st n).1.hs, (genEnt st n).1.evs ++ _, none, (genEnt st n).1.unit⟩
         rw [i1, i3]; exact key
       | true =>
-        have hn1 : n = 1 := by
+        have hok : nvKeepOk c st n = true := by
           rcases hk with hk | hk
           · rw [hnv] at hk; cases hk
           · exact hk
-        subst hn1
         obtain ⟨j1, j2, j3, _⟩ := inv_freeUp hi hnv
         have hlim1 : limit c = c.maxq - 1 := by unfold limit; simp [hnv]
-        have hce : createEnt c st 1 false =
-            .ok ({ freeUp c st with hs := (freeUp c st).hs ++ [⟨0, true⟩] }, [0]) := by
-          simp [createEnt, hnv, nvEnt]
+        obtain ⟨st', e1, e2, e3, e4⟩ := nvEnt_spec n (freeUp c st) (nvKeepOk_spec hok)
+        have hce : createEnt c st n false = .ok (st', descIds n) := by
+          simp only [createEnt, hnv, if_true]; exact e1
         rw [hce]
         have hs : c.single = true := by simp [Cfg.single, hnv]
-        simp only [hs, if_true, moveLoop]
+        simp only [hs, if_true]
         refine ⟨?_, rfl⟩
-        have key := inv_add_delivered j1 ((freeUp c st).hs ++ [⟨0, true⟩]) [0]
-          (activeIds_snoc _ 0) (nodup_snoc j1.nodup j2)
-          (fun v hv => by simp at hv; omega) (by rw [j3]; simpa using hb)
-        simpa using key
+        obtain ⟨u, hu, hm⟩ := j1.runs
+        have hfree : ∀ k, 1 ≤ k → k < n → k ∉ u ∧ k < c.maxq := fun k hk1 hk2 =>
+          ⟨fun h => nvKeepOk_spec hok k hk1 hk2 ((hm k).mp h), by omega⟩
+        obtain ⟨u2, hu2, hm2⟩ := run_allocEvs n u hfree
+        have h0u2 : (0 : Nat) ∉ u2 := by
+          intro h
+          rcases (hm2 0).mp h with h | h
+          · exact j2 ((hm 0).mp h)
+          · omega
+        obtain ⟨u3, hu3, hm3⟩ := run_moveLoop (m := c.maxq) (n := n) n u2 h1 h0u2 (by omega)
+          (fun j hj1 hj2 => ⟨(hm2 j).mpr (Or.inr ⟨hj1, hj2⟩), by omega⟩)
+        have hdisj : ∀ a ∈ activeIds (freeUp c st).hs, ∀ b ∈ descIds n, a ≠ b := by
+          intro a ha b hb e
+          subst e
+          have hb' := (mem_descIds n a).mp hb
+          by_cases ha0 : a = 0
+          · subst ha0; exact j2 ha
+          · exact nvKeepOk_spec hok a (by omega) hb' ha
+        refine ⟨?_, ?_, ?_, ⟨u3, ?_, ?_⟩, by simp⟩
+        · simp only [e2]
+          exact List.nodup_append.mpr ⟨j1.nodup, nodup_descIds n, hdisj⟩
+        · simp only [e2]; intro v hv
+          rcases List.mem_append.mp hv with h | h
+          · exact j1.bound v h
+          · have := (mem_descIds n v).mp h; omega
+        · simp only [e2, List.length_append, length_descIds, j3]; exact hb
+        · simp only [e3, e4]
+          exact run_snoc_ok (run_snoc_ok hu hu2) hu3
+        · intro w
+          simp only [e2, List.mem_append, mem_descIds]
+          rw [hm3 w, hm2 w, hm w]
+          constructor
+          · rintro (h | h | h)
+            · exact Or.inr (by omega)
+            · exact Or.inl h
+            · exact Or.inr h.2
+          · rintro (h | h)
+            · exact Or.inr (Or.inl h)
+            · by_cases hw0 : w = 0
+              · exact Or.inl hw0
+              · exact Or.inr (Or.inr ⟨by omega, h⟩)
 
 theorem inv_apply {c : Cfg} {st : St} {op : Op} (hi : Inv c st) (hok : opOk c st op = true) :
     Inv c (apply c st op).1 ∧ (apply c st op).2.fatal = false := by
